@@ -94,6 +94,20 @@ func verifC44Gen(r *verifutil.Rand, i int, thorough bool) []string {
 	if i < grid {
 		return []string{fmt.Sprintf("all %d %d", i/12, i%12+1)}
 	}
+	if r.Intn(8) == 0 {
+		// long lists and page sizes around round numbers (a server-side cap, a fixed-size buffer or a narrower integer
+		// would sit there): the number of pages is kept below ~25 so that `all` stays cheap
+		marks := []int{100, 255, 256, 500, 1000, 1024, 2000, 4096, 5000, 10000, 32767, 32768, 65535, 65536}
+		n := marks[r.Intn(len(marks))]*(1+r.Intn(3)) + r.Intn(7) - 3
+		ipp := marks[r.Intn(len(marks))] + r.Intn(5) - 2
+		for n/ipp > 25 {
+			ipp *= 2
+		}
+		if r.Bool() {
+			return []string{fmt.Sprintf("all %d %d", n, ipp)}
+		}
+		return []string{fmt.Sprintf("pg %d %s %s", n, verifutil.HexS(fmt.Sprint(ipp)), verifutil.HexS(fmt.Sprint(r.Intn(n/ipp+3))))}
+	}
 	if r.Intn(3) == 0 {
 		n := r.Intn(maxLen)
 		return []string{fmt.Sprintf("all %d %d", n, r.Intn(n+5)+1)}
